@@ -270,7 +270,7 @@ pub fn run(run: &mut Run) -> &'static str {
     // ---- histories
     let maps = KeyMaps::new();
     let maps_ref = &maps;
-    let cases = run.tier.pick(60_000, 3_000_000);
+    let cases = run.tier.pick(300_000, 6_000_000);
     run.proptest_part("histories", RULE, hist_case(4..200), cases, |case: &HistCase, st: &mut Stats| {
         let mut obs = Obs { maps: maps_ref, path: 0, recurrences: 0 };
         let mut cfg = Config::search_like(60);
@@ -293,7 +293,7 @@ pub fn run(run: &mut Run) -> &'static str {
 
     // ---- transpositions: two orders of two independent moves reach one identity, hence one key
     // (covered by the run-wide map above); twins: directed near-misses must differ in key
-    let cases = run.tier.pick(20_000, 1_000_000);
+    let cases = run.tier.pick(100_000, 2_000_000);
     run.proptest_part("twins", RULE, pos_case(6..140), cases, |case: &PosCase, st: &mut Stats| {
         let tp_data: Vec<u16> = match case {
             PosCase::Tape(t) => t.iter().rev().copied().collect(),
